@@ -14,6 +14,9 @@ ASSUMPTIONS = [
   "E2 part: a caller runs the real ActiveObject.subscribe (run-time path: __thread_running, subscribed, _subscribe -> fabric.subscribe), post_fifo and "
   "publish on a started object; the delivery thread of the subscription's kind runs the real thread_runner (for lifo: LockingDeque.appendleft on the object's "
   "queue), the object's own thread runs run_event -> next_rtc with a dispatch stub; all translated from /repo's source on this run; ghost reference deque as in C04",
+  "E2 part, several subscribers: 2-3 threads call the real ActiveFabricSource.subscribe for one signal at the same time (different queues, or the same queue), "
+  "with or without a queue that subscribed before; asserted when all have returned: every queue that subscribed is in the signal's registry exactly once "
+  "(complete: the programs are loop-free and the adequacy query is unsat at the computed bound)",
   "threads are recorded stand-ins; after the API calls every thread body (active objects' run_event, the two delivery bodies) is pumped in a fixed "
   "round-robin until nothing is left to do (phase interleaving); blocking waits end a pump",
   "one signal NEWS; a bystander object that never subscribed checks 'no one else'",
@@ -182,10 +185,46 @@ def e2_specs(tier):
     out.append(dict(scenario="ao_pubsub", kwargs=kw, kind="reach", K=K + 10, pred="all_dispatched", timeout=to))
     out.append(dict(scenario="ao_pubsub", kwargs=kw, kind="safety", K=K, pred="c04_bad", timeout=to, replay="ao_pubsub_replay"))
     out.append(dict(scenario="ao_pubsub", kwargs=kw, kind="deadlock", K=deadlock_bound(kw, K), pred="quiescent_wrong", timeout=to, replay="ao_pubsub_replay"))
+  # several objects subscribe to one signal at once, each from its own thread ("regardless of which other active objects ... subscribed")
+  for (kw, K) in subscriber_scenarios(tier):
+    out.append(dict(scenario="subscribers", kwargs=kw, kind="reach", K=K, pred="subscribers_done", timeout=to))
+    out.append(dict(scenario="subscribers", kwargs=kw, kind="safety", K=K, pred="subscription_lost", timeout=to, replay="subscribers_replay"))
+    out.append(dict(scenario="subscribers", kwargs=kw, kind="deadlock", K=K, pred="subscribers_open", timeout=to, replay="subscribers_replay"))
+    out.append(dict(scenario="subscribers", kwargs=kw, kind="adequacy", K=K, timeout=to))
   return out
 
 
+def subscriber_scenarios(tier):
+  """the subscriber programs are loop-free (the registry walk is one snapshot): K = number of operations + 2 covers every behaviour, which the
+  adequacy query confirms; computed from the translated code"""
+  from vf.e2 import check, ir
+  kws = [dict(kind="fifo", prior=False, n=2), dict(kind="fifo", prior=True, n=2)]
+  if tier != "quick":
+    kws += [dict(kind="lifo", prior=False, n=2), dict(kind="fifo", prior=False, n=2, same=True), dict(kind="fifo", prior=True, n=3), dict(kind="lifo", prior=True, n=2, same=True)]
+  out = []
+  for kw in kws:
+    _sc, sysm = check.build("subscribers", kw)
+    nops = sum(1 for p in sysm.programs for n in p.nodes if isinstance(n, ir.Op))
+    out.append((kw, min(60, nops + 2)))
+  return out
+
+
+def subscribers_signature(spec, r):
+  real = r["replay"]["real"]
+  kw = spec["kwargs"]
+  if real["errors"]:
+    return ("subscribe-raised", "%s; schedule: %s" % (real["errors"], r["trace"]), True)
+  if spec["kind"] == "deadlock":
+    return ("subscriber-blocked-for-ever", "finished threads %s; schedule: %s" % (real["finished"], r["trace"]), len(real["finished"]) < kw["n"])
+  want = sorted(([0] if kw.get("same") else list(range(kw["n"]))) + ([kw["n"]] if kw.get("prior") else []))
+  got = real["registered_queues"]
+  return ("subscription-lost:concurrent-subscribers", "%d threads subscribed to one signal at the same time%s: the real registry holds queues %s, expected each of %s once; "
+          "schedule: %s" % (kw["n"], " (another queue had subscribed before)" if kw.get("prior") else "", got, want, r["trace"]), sorted(got) != want)
+
+
 def e2_signature(spec, r):
+  if spec["scenario"] == "subscribers":
+    return subscribers_signature(spec, r)
   real = r["replay"]["real"]
   kw = spec["kwargs"]
   if real["errors"]:
@@ -205,7 +244,13 @@ def solver_part(tier, known):
   from vf.e2 import propbase, harness
   FUNCTIONS.extend(x for x in propbase.functions_of("ao_pubsub", e2_scenarios(tier)[0][0]) if x not in FUNCTIONS)
   n = 5 if tier == "quick" else 20
-  out = propbase.run(e2_specs(tier), known, e2_signature, jobs=8,
-                     differential=lambda: harness.ao_pubsub_differential(DIFF_KW, n, seed=43))
-  out["coverage"]["e2_bounds"] = [{"kwargs": k, "K": K} for k, K in e2_scenarios(tier)]
+  FUNCTIONS.extend(x for x in propbase.functions_of("subscribers", subscriber_scenarios(tier)[1][0]) if x not in FUNCTIONS)
+
+  def differential():
+    a = harness.ao_pubsub_differential(DIFF_KW, n, seed=43)
+    b = harness.subscribers_differential(subscriber_scenarios(tier)[1][0], 2 * n, seed=47)
+    return {"schedules": a["schedules"] + b["schedules"], "visible_operations": a["visible_operations"] + b["visible_operations"],
+            "disagreements": a["disagreements"] + [dict(x, schedule="subscribers-%s" % x.get("schedule")) for x in b["disagreements"]]}
+  out = propbase.run(e2_specs(tier), known, e2_signature, jobs=8, differential=differential)
+  out["coverage"]["e2_bounds"] = [{"kwargs": k, "K": K} for k, K in e2_scenarios(tier) + subscriber_scenarios(tier)]
   return out
